@@ -56,3 +56,16 @@ Example C05_history_nonvacuous :
     Inv s8 /\ List.length (hosts s8) = 1%nat /\ List.length (macs s8) = 1%nat.
 Proof. exact ex_history_nontrivial. Qed.
 Print Assumptions C05_history_nonvacuous.
+
+(* ---- exported fields the application owns are INPUTS ----
+   Host.HuntStage is written by the application (under the row lock), never by a step of the library after it created the
+   record, and read by no step.  The invariant is independent of it: every re-valuation of the stages of a consistent
+   state is consistent, in particular the state after the history op H (the application sets the stage of FindIP(k)).
+   With C05_step this gives the invariant after every history that interleaves H ops with the API calls. *)
+Theorem C05_inv_independent_of_huntstage : forall f s, Inv s -> Inv (restage f s).
+Proof. exact inv_restage. Qed.
+Print Assumptions C05_inv_independent_of_huntstage.
+
+Theorem C05_application_sets_huntstage : forall k st s, Inv s -> Inv (upd_host k (set_hstage st) s).
+Proof. exact inv_set_stage. Qed.
+Print Assumptions C05_application_sets_huntstage.
